@@ -78,6 +78,8 @@ func runFaultCase(c *ctx, fc faultCase) (labels []string) {
 			return brokenTokenResponse(0)
 		case "idpgarbage-typed":
 			return brokenTokenResponse(1)
+		case "idplost":
+			return &idpFault{lost: true}
 		}
 		return f
 	}
@@ -223,7 +225,7 @@ func runFault(c *ctx) {
 			c.emit("faultdry", "handler", h, "prestate", p, "labels", labels)
 			for i, l := range labels {
 				if strings.HasPrefix(l, "IDP") {
-					for _, k := range []faultPlan{{i, "idp5xx", 1}, {i, "idp5xx", 2}, {i, "idp5xx", -1}, {i, "idp4xx", -1}, {i, "idp4xx-html", -1}, {i, "idp4xx-empty", -1}, {i, "idpgarbage", -1}, {i, "idpgarbage-typed", -1}} {
+					for _, k := range []faultPlan{{i, "idp5xx", 1}, {i, "idp5xx", 2}, {i, "idp5xx", -1}, {i, "idp4xx", -1}, {i, "idp4xx-html", -1}, {i, "idp4xx-empty", -1}, {i, "idpgarbage", -1}, {i, "idpgarbage-typed", -1}, {i, "idplost", 1}} {
 						k := k
 						cases = append(cases, faultCase{h, p, &k})
 					}
